@@ -22,6 +22,7 @@ import ProcSim.Props.C16
 namespace ProcSim
 open Spec
 open Loader Loader.Spec
+open Spec.Text
 
 variable {N : Type} [DecidableEq N] [LT N] [DecidableRel (α := N) (· < ·)]
 
